@@ -418,7 +418,7 @@ class Body:
         if 'un' in rv:
             return ('un', rv['un'], self.origin(rv['a'], depth + 1, seen))
         if 'discr' in rv:
-            return ('discr', self._origin_place(rv['discr'], depth + 1, seen))
+            return ('discr', self._origin_place(rv['discr'], depth + 1, seen), rv.get('variants'), rv.get('adt'))
         if 'agg' in rv:
             return ('agg', rv['agg'], [self.origin(o, depth + 1, seen) for o in rv['ops']])
         if 'repeat' in rv:
